@@ -202,3 +202,51 @@ SPECS["C17"] = dict(
         ]),
     ],
 )
+
+VSCHED_OVERLAY = ["internal/vsched"]
+VATOMIC = "atomic.*=github.com/panjf2000/gnet/v2/internal/vsched/vatomic"
+VUNIX = "unix.Write=github.com/panjf2000/gnet/v2/internal/vsched/vunix,unix.Read=github.com/panjf2000/gnet/v2/internal/vsched/vunix,unix.EpollWait=github.com/panjf2000/gnet/v2/internal/vsched/vunix"
+
+SPECS["C13"] = dict(
+    level="exploration",
+    technique="schedule-generating property-based testing: the real queue code runs under a harness-owned cooperative scheduler (one step = one atomic operation), schedules drawn by rapid (random walk, PCT) or enumerated up to a pre-emption bound; histories checked by the porcupine linearizability checker against a sequential FIFO model",
+    rule="a case is a script (2..4 threads x 1..5 Enqueue/Dequeue operations) plus a schedule over the queue's atomic loads/CASes/adds; oracle: porcupine linearizability w.r.t. a FIFO queue in which Dequeue answers 'empty' only when empty, "
+         "never-invented tasks, and at quiescence Length/IsEmpty = remaining tasks, draining returns each remaining task once in per-producer order; non-trivial = two operations of different threads overlapped in (logical) time and one was a Dequeue; "
+         "distinct = distinct call/return event sequence. Supplement: real-goroutine stress (exactly-once, per-producer order, quiescent Length).",
+    assumptions=["every shared-memory access of the queue goes through sync/atomic function calls (which the instrumenter rewrites); plain accesses would not be scheduling points", "porcupine v1.3.0 is a correct linearizability checker"],
+    overlay=["verifx/c13"] + VSCHED_OVERLAY,
+    modules=["github.com/anishathalye/porcupine@v1.3.0"],
+    instrument=[["-map", VATOMIC, "pkg/queue/lock_free_queue.go", "pkg/queue/queue.go"]],
+    jobs=[
+        dict(name="c13", pkg="./verifx/c13", tests=[
+            dict(id="scheduled", run="^TestC13Scheduled$", quick=dict(shards=12, checks=1500, timeout=300), thorough=dict(shards=16, checks=60000, timeout=2400, shrinktime=120)),
+            dict(id="exhaustive", run="^TestC13Exhaustive$", rapid=False, quick=dict(shards=4, timeout=300), thorough=dict(shards=16, timeout=2400)),
+        ]),
+        dict(name="c13-race", pkg="./verifx/c13", race=True, tests=[
+            dict(id="stress", run="^TestC13Stress$", quick=dict(shards=2, checks=60, timeout=300), thorough=dict(shards=4, checks=1500, timeout=2400)),
+        ]),
+    ],
+)
+
+POLLER_INSTR = [
+    ["-map", VATOMIC, "pkg/queue/lock_free_queue.go", "pkg/queue/queue.go"],
+    ["-map", VATOMIC + "," + VUNIX, "pkg/netpoll/poller_epoll_default.go"],
+    ["-map", VATOMIC + "," + VUNIX, "-ident", "epollWait=vEpollWait", "pkg/netpoll/poller_epoll_ultimate.go"],
+]
+
+SPECS["C03"] = dict(
+    level="exploration",
+    technique="schedule-generating property-based testing of the real poller (Trigger/Polling, both epoll variants) under a harness-owned cooperative scheduler with quiescence detection; engine-level generated request scripts with an exactly-once oracle",
+    rule="layer A: a case is 1..4 producer threads x 1..6 Trigger calls (drawn priorities; some cases preload 1024 urgent + >256 low-priority tasks) plus a schedule over every atomic operation, queue step and eventfd/epoll system call "
+         "(random walk or PCT with 1..3 priority-change points; bounded-exhaustive with <= 2 pre-emptions for the smallest configurations); at quiescence (loop parked in epoll_wait, nothing ready) every accepted task ran exactly once on the loop thread, "
+         "high-priority tasks of one producer in issue order; non-trivial = some producer's wake-up CAS lost (it found the flag already set); distinct = distinct schedule",
+    assumptions=["every shared access of poller and queue goes through sync/atomic function calls or the eventfd/epoll system calls (the instrumented scheduling points)", "kqueue pollers cannot run on Linux"],
+    overlay=["verifx/c03", "pkg/netpoll/zz_verif_vsched_poll_opt.go"] + VSCHED_OVERLAY,
+    instrument=POLLER_INSTR,
+    jobs=[
+        dict(name="c03a-" + tagname(tg), pkg="./verifx/c03", tags=tg, tests=[
+            dict(id="scheduled", run="^TestC03WakeScheduled$", quick=dict(shards=6, checks=1200, timeout=400), thorough=dict(shards=8, checks=40000, timeout=3000, shrinktime=120)),
+            dict(id="exhaustive", run="^TestC03WakeExhaustive$", rapid=False, quick=dict(shards=2, timeout=400), thorough=dict(shards=8, timeout=3000)),
+        ]) for tg in ["", "poll_opt"]
+    ],
+)
